@@ -5,6 +5,7 @@
 cd /verif || exit 2
 need=0
 [ -x bin/govc ] || need=1
+[ -x bin/goyacc ] || need=1
 if [ $need -eq 0 ]; then
   for f in govc/*.go; do [ "$f" -nt bin/govc ] && need=1; done
 fi
